@@ -1019,6 +1019,21 @@ func c13GenStructured(r *RNG) *c13Input {
 			uri := Pick(r, []string{"https://rp.example/ro/1", "https://rp.example/ro/1", "https://rp.example/ro/2", "https://rp.example/ro/3"})
 			if len(c.ReqURIs) > 0 && r.Chance(60) {
 				uri = c.ReqURIs[r.Intn(len(c.ReqURIs))]
+				// near misses of a registered value: extensions, truncations, case, trailing slash
+				if r.Chance(30) {
+					switch r.Intn(5) {
+					case 0:
+						uri += Pick(r, []string{"0", ".old", "-staging", "/../debug", "?version=2", "/"})
+					case 1:
+						uri = uri[:len(uri)-1]
+					case 2:
+						uri = strings.ToUpper(uri[:8]) + uri[8:]
+					case 3:
+						uri = strings.Replace(uri, "https://", "http://", 1)
+					default:
+						uri = strings.Replace(uri, "rp.example", "rp.example.evil.example", 1)
+					}
+				}
 			}
 			add("request_uri", uri)
 			in.FetchOK = r.Chance(88)
